@@ -5,6 +5,7 @@ package main
 import (
 	"fmt"
 	"go/types"
+	"regexp"
 	"sort"
 	"strings"
 )
@@ -375,7 +376,7 @@ func (g *Gen) zeroOfSort(s string, t types.Type) string {
 	if es, ok := g.sliceElem[s]; ok {
 		if t != nil {
 			if at, ok := t.Underlying().(*types.Array); ok {
-				return fmt.Sprintf("(mk_%s ((as const (Array Int %s)) %s) %d false)", s, es, g.Zero(at.Elem()), at.Len())
+				return fmt.Sprintf("(mk_%s %s %d false)", s, g.ConstArray(es, g.Zero(at.Elem())), at.Len())
 			}
 		}
 		return g.NilSlice(s)
@@ -385,6 +386,18 @@ func (g *Gen) zeroOfSort(s string, t types.Type) string {
 		return fmt.Sprintf("(mk_%s %s_val0 ((as const (Array %s Bool)) false) true)", s, s, kv[0])
 	}
 	return "0"
+}
+
+// ConstArray: an array holding zero everywhere. cvc5 accepts (as const ...) only for value arguments, so non-value
+// zeros (records containing uninterpreted string constants) get a declared array with a defining axiom.
+func (g *Gen) ConstArray(es, zero string) string {
+	if es == "Int" || es == "Bool" {
+		return fmt.Sprintf("((as const (Array Int %s)) %s)", es, zero)
+	}
+	name := "zarr_" + mangle(es)
+	g.DeclFun(name, nil, fmt.Sprintf("(Array Int %s)", es))
+	g.Axiom("zeroarray."+es, fmt.Sprintf("(forall ((i!z Int)) (! (= (select %s i!z) %s) :pattern ((select %s i!z))))", name, zero, name))
+	return name
 }
 
 func (g *Gen) NilSlice(s string) string {
@@ -501,6 +514,14 @@ const preludeFuns = `
 (define-fun tmod ((a Int) (b Int)) Int (- a (* b (tdiv a b))))
 (define-fun imax ((a Int) (b Int)) Int (ite (>= a b) a b))
 (define-fun imin ((a Int) (b Int)) Int (ite (<= a b) a b))
+(declare-fun nlmul (Int Int) Int)
+(assert (forall ((a Int) (b Int)) (! (= (nlmul a b) (nlmul b a)) :pattern ((nlmul a b)))))
+(assert (forall ((a Int) (b Int)) (! (=> (and (>= a 0) (>= b 0)) (>= (nlmul a b) 0)) :pattern ((nlmul a b)))))
+(assert (forall ((a Int) (b Int)) (! (=> (and (> a 0) (> b 0)) (and (>= (nlmul a b) a) (>= (nlmul a b) b))) :pattern ((nlmul a b)))))
+(assert (forall ((a Int)) (! (= (nlmul a 0) 0) :pattern ((nlmul a 0)))))
+(assert (forall ((a Int)) (! (= (nlmul 0 a) 0) :pattern ((nlmul 0 a)))))
+(assert (forall ((a Int)) (! (= (nlmul a 1) a) :pattern ((nlmul a 1)))))
+(assert (forall ((a Int)) (! (= (nlmul 1 a) a) :pattern ((nlmul 1 a)))))
 (declare-fun band (Int Int) Int)
 (declare-fun bor (Int Int) Int)
 (declare-fun bxor (Int Int) Int)
@@ -529,4 +550,16 @@ func sortedKeys[V any](m map[string]V) []string {
 	}
 	sort.Strings(ks)
 	return ks
+}
+
+var numeralRe = regexp.MustCompile(`^(\d+|\(- \d+\))$`)
+
+// mulTerm: products with a numeral stay linear; genuinely nonlinear products go through the uninterpreted nlmul with
+// sound axioms (commutativity, sign, zero/one), so that equalities between identical products are proved by congruence
+// and the solvers never enter incomplete nonlinear arithmetic. (Abstraction: sound for proofs; models are candidates.)
+func mulTerm(a, b string) string {
+	if numeralRe.MatchString(a) || numeralRe.MatchString(b) {
+		return fmt.Sprintf("(* %s %s)", a, b)
+	}
+	return fmt.Sprintf("(nlmul %s %s)", a, b)
 }
